@@ -328,41 +328,43 @@ def _work_ladder(args: tuple) -> dict:
 
     def _alarm(*a: Any) -> None:
         raise TimeoutError("ladder case exceeded its time budget")
-    signal.signal(signal.SIGALRM, _alarm)
+    # CPU time, not wall time: the verdict must not depend on the machine's load
+    signal.signal(signal.SIGVTALRM, _alarm)
     for pname, prof in profiles.items():
         if prof.skip or prof.semantic:
             continue
         if pname in ("pytato.transform.WalkMapper", "pytato.stringifier.Reprifier"):
             continue      # uncached: exponential by documented design / output doubles per level
-        t0 = time.time()
-        signal.alarm(120)
+        t0 = time.process_time()
+        signal.setitimer(signal.ITIMER_VIRTUAL, 30)
         try:
             r = H.run_direct(pname, prof, root, interner, case)
         except TimeoutError:
             findings.append({"clause": "OncePerKey:exponential_time", "case": case,
-                             "mapper": pname, "what": "more than 120 s on a ladder"})
+                             "mapper": pname, "what": "more than 30 s of CPU on a ladder"})
             continue
         finally:
-            signal.alarm(0)
+            signal.setitimer(signal.ITIMER_VIRTUAL, 0)
         stats["ladder_runs"] += 1
         for f in r["findings"]:
             f.update(case=case, mapper=pname)
         findings += r["findings"]
         records += r["records"]
-        if time.time() - t0 > 60:
+        if time.process_time() - t0 > 20:
             findings.append({"clause": "OncePerKey:exponential_time", "case": case,
-                             "mapper": pname, "what": f"{time.time() - t0:.0f}s on a ladder"})
+                             "mapper": pname,
+                             "what": f"{time.process_time() - t0:.0f}s of CPU on a ladder"})
     fs, npairs = _equality_findings(
         H, lambda: H.build_t1(ch, rep, scheme, seed=seed(), allowed=H.LADDER_SCHEMES)[0], case)
     findings += fs
     stats["eq_pairs"] = npairs
     # repr() with the default truncation must stay cheap however many paths there are
-    t0 = time.time()
+    t0 = time.process_time()
     _ = repr(root)
-    if time.time() - t0 > 30:
+    if time.process_time() - t0 > 30:
         findings.append({"clause": "OncePerKey:exponential_time", "case": case,
                          "mapper": "pytato.stringifier.Reprifier",
-                         "what": f"repr took {time.time() - t0:.0f}s on a ladder"})
+                         "what": f"repr took {time.process_time() - t0:.0f}s of CPU on a ladder"})
     return {"records": records, "findings": findings, "stats": stats}
 
 
@@ -568,6 +570,10 @@ def main(tier: str, only: dict | None = None) -> int:
         "CachedMapperCache.add/retrieve; a mapper that visits a node without going through "
         "rec or a map_* method is invisible",
     ]
+    if os.environ.get("PTVERIF_KEYS_OUT"):        # development aid (mutation experiments)
+        import json as _json
+        with open(os.environ["PTVERIF_KEYS_OUT"], "w") as f:
+            _json.dump(sorted(v["key"] for v in run.violations), f)
     return run.finish()
 
 
@@ -616,7 +622,7 @@ def selftest(tier: str) -> int:
             {"ev": "enter", "n": e["n"], "x": 0, "res": 0},
             {"ev": "return", "n": e["n"], "x": 0, "res": e["res"], "ret": e["res"],
              "raw": e["res"], "rawcl": b["cls"][e["n"] - 1], "fresh": False, "lbl": True,
-             "och": []}]
+             "och": [], "fsame": True}]
     mut(cm, "bad_second_invocation", second_invocation)
     mut(ts, "bad_dropped_child", lambda b: b["events"].__delitem__(
         next(i for i, e in enumerate(b["events"]) if e["ev"] == "hit")))
